@@ -205,6 +205,7 @@ class Machine:
         self.depth = 0
         self.max_depth = max_depth
         self.fit_cache = {}
+        self.push_addsub = False  # experimental (9.3): pushes +-w into ite leaves; faster on some shapes, explodes value sets on others
         self.lin_cache = {}
         self.excl = {}
         self.solver = z3.Solver()
@@ -353,23 +354,8 @@ class Machine:
         hi = max(p.hi if isinstance(p, Term) else p for g, p in small)
         for g, p in reversed(small):
             pe = p.e if isinstance(p, Term) else z3.IntVal(p)
-            if isinstance(p, Term) and g:
-                # specialise the branch under its own guard: sub-terms that test the same atoms collapse
-                # (ite(c, ite(c, x + w, x) - w, ...) -> ite(c, x, ...)), which keeps `+w ... -w` chains small
-                pe = z3.substitute(pe, *[(self.lits.atoms[a], z3.BoolVal(pol)) for a, pol in g])
-            if e is None:
-                e = pe
-            else:
-                if len(g) == 1:
-                    (a, pol), = tuple(g)
-                    e = z3.substitute(e, (self.lits.atoms[a], z3.BoolVal(not pol)))
-                e = z3.If(self.lits.guard_expr(g), pe, e)
-        e = z3.simplify(e)
-        if z3.is_int_value(e):
-            v = e.as_long()
-            t = v if v >= 0 else Term(e, v, v)
-        else:
-            t = Term(e, lo, hi)
+            e = pe if e is None else z3.If(self.lits.guard_expr(g), pe, e)
+        t = Term(e, lo, hi)
         if not big:
             return t
         # guard of the group: negation of a single-literal big alternative if possible, else a defined atom
@@ -628,6 +614,8 @@ class Ops:
         needs a solver query to exclude a wrap-around."""
         ea, eb = a.e, b.e
         lo, hi = (a.lo + b.lo, a.hi + b.hi) if sign > 0 else (a.lo - b.hi, a.hi - b.lo)
+        if not self.push_addsub:
+            return Term(ea + eb if sign > 0 else ea - eb, lo, hi)
         simple_b = z3.is_int_value(eb) or eb.decl().kind() == z3.Z3_OP_UNINTERPRETED
         simple_a = z3.is_int_value(ea) or ea.decl().kind() == z3.Z3_OP_UNINTERPRETED
         if simple_b and not simple_a and ea.decl().kind() in (z3.Z3_OP_ITE, z3.Z3_OP_ADD, z3.Z3_OP_SUB):
@@ -785,7 +773,7 @@ class Ops:
                 return self.boolt(z3.Xor(a, b))
             raise Unsupported("ordered compare on i1")
         signed = pred >= 38
-        if pred in (32, 33):
+        if pred in (32, 33) and self.push_addsub:
             # equality: any common representative will do - prefer the one that needs no wrap analysis
             ta, tb = _t(x, w), _t(y, w)
             half = 1 << (w - 1)
